@@ -2,7 +2,7 @@
 
 Module-level memo tables (functools caches, dicts keyed by attribute tuples, ...) live as long as the process; whichever call fills
 an entry first decides what later calls see.  The pool workers of mc.runner are reused for many shards, so "the very first call in
-the process" can only be controlled by forking a child directly from the (clean) parent for every order that is to be compared.
+the process" can only be controlled by starting a new interpreter (multiprocessing 'spawn') for every order that is to be compared.
 """
 import multiprocessing
 import traceback
@@ -10,6 +10,9 @@ import traceback
 
 def _child(conn, fn, args):
     try:
+        from mc import runner
+
+        runner.setup_repo()  # the same working tree as the parent, or an error
         conn.send(("ok", fn(*args)))
     except BaseException:  # noqa
         conn.send(("error", traceback.format_exc()))
@@ -18,8 +21,9 @@ def _child(conn, fn, args):
 
 
 def in_fresh_process(fn, *args, timeout=300):
-    """fn(*args) in a child forked from this process; the result must be plain data."""
-    ctx = multiprocessing.get_context("fork")
+    """fn(*args) in a newly started interpreter (spawn: nothing of this process's history is inherited); fn must be a module-level
+    function and the result plain data."""
+    ctx = multiprocessing.get_context("spawn")
     parent, child = ctx.Pipe(duplex=False)
     p = ctx.Process(target=_child, args=(child, fn, args))
     p.start()
